@@ -307,11 +307,19 @@ def showNat (n : Nat) : List Nat := showInt (n : Int)
 def jsonLine (c : Nat) (valTxt : List Nat) : List Nat :=
   [91] ++ showNat c ++ [44, 32] ++ valTxt ++ [93, 44, 10]
 
-/-- `write_tag2(code, value)` for a value that is not the EOF marker -/
+/-- `math.isfinite(x)` on the bit pattern: the exponent field is not all ones -/
+def isFiniteBits (b : Nat) : Bool := (b / 2 ^ 52) % 2048 != 2047
+
+def finiteVal : Val → Bool
+  | .dbl b => isFiniteBits b
+  | _ => true
+
+/-- `write_tag2(code, value)` for a value that is not the EOF marker; `inf`/`nan` are no JSON numbers and
+    are written as strings also in the compact format (fix of F28) -/
 def jsonVal (fmt : Nat → List Nat) (compact : Bool) : Val → List Nat
   | .str s => jsonDumps s
   | .int v => if compact then showInt v else jsonDumps (showInt v)
-  | .dbl b => if compact then fmt b else jsonDumps (fmt b)
+  | .dbl b => if compact && isFiniteBits b then fmt b else jsonDumps (fmt b)
   | .bin d => jsonDumps (hexlify d)                     -- `tag.tostring()`
 
 def joinComma : List (List Nat) → List Nat
@@ -329,8 +337,9 @@ def jsonTag (fmt : Nat → List Nat) (compact : Bool) : CTag Val → List Nat
     if c = 0 ∧ v = .str sEOF then jsonEof        -- `write_tag2(0, "EOF")` closes the document
     else jsonLine c (jsonVal fmt compact v)
   | .point c xs =>
-    if compact then jsonLine c ([91] ++ joinComma ((xs.take 3).map (valText fmt)) ++ [93])
-    else (flattenPt c (xs.take 3) 0).flatMap fun p => jsonLine p.1 (jsonVal fmt false p.2)
+    -- a vertex with a non-finite coordinate is written as single tags (fix of F28)
+    if compact && (xs.take 3).all finiteVal then jsonLine c ([91] ++ joinComma ((xs.take 3).map (valText fmt)) ++ [93])
+    else (flattenPt c (xs.take 3) 0).flatMap fun p => jsonLine p.1 (jsonVal fmt compact p.2)
 
 /-- the whole document: header, `write_tag` for every tag, `write_tag2(0, "EOF")` -/
 def jsonWrite (fmt : Nat → List Nat) (compact : Bool) (ts : List (CTag Val)) : List Nat :=
